@@ -30,6 +30,7 @@ RULE = (
   "x nvmax sweep; oracle: (A) sleep-enabled model with all trees awake (nvmax default or nv) and (P) plain model with nvmax<nv give the qacc / efc.force / qfrc_constraint of the "
   "plain full solve (5e-4 of the field's scale); (B) trees asleep after forward() have qacc exactly 0 and awake dofs equal the plain solve of the same state (only judged when no "
   "constraint row couples an awake with a sleeping tree); (C) world whose awake dofs exceed nvmax has the NVMAX bit, worlds that fit are judged as (B); "
+  "(H) one Data solved for the sequence all-awake -> subset -> all-awake (-> subset) gives at every step what a fresh Data gives for that active set; "
   "evaluation = one (run, world); non-trivial = world with >=1 tree asleep and >=1 awake tree that carries constraint rows"
 )
 ASSUMPTIONS = [
@@ -128,13 +129,14 @@ class Run:
     return out
 
 
-def _forward(mjm, m, states, nvmax=None, asleep=None):
-  kw = dict(nworld=len(states), nconmax=NCON, njmax=NJ)
-  if H.is_sparse(mjm):
-    kw["njmax_nnz"] = NJ * mjm.nv
-  if nvmax is not None:
-    kw["nvmax"] = int(nvmax)
-  d = H.make_data(mjm, **kw)
+def _forward(mjm, m, states, nvmax=None, asleep=None, d=None):
+  if d is None:
+    kw = dict(nworld=len(states), nconmax=NCON, njmax=NJ)
+    if H.is_sparse(mjm):
+      kw["njmax_nnz"] = NJ * mjm.nv
+    if nvmax is not None:
+      kw["nvmax"] = int(nvmax)
+    d = H.make_data(mjm, **kw)
   H.set_data(d, states)
   # the output fields hold whatever the previous step left there: poison them, forward() has to overwrite every entry
   for name, val in (("qacc", 7.25), ("qfrc_constraint", -3.5), ("qacc_smooth", 1.75)):
@@ -257,6 +259,28 @@ def check(case, rec):
   B = _forward(ms, m_s, states2, asleep=asleep)
   need = np.array([int(tree_nv[B.tree_awake[w] == 1].sum()) for w in range(n)])
   coupled = [_judge_sleep(rec, mp, "B", B, R2, w, dof_tree, case, nvmax=None) for w in range(n)]
+
+  # ---------------- (H) the same Data solved for a sequence of active sets: all awake -> subset -> all awake [-> subset].  Every solve must give what a
+  # fresh Data gives for that active set (nothing left in the compaction workspace by a larger / differently placed active set may leak into the next solve)
+  if case["seed"] % 2 == 0:
+    allawake = np.full((n, ntree), mjw_sleep.K_AWAKE_VAL, dtype=np.int32)
+    Hd = _forward(ms, m_s, states, asleep=allawake)
+    seq = [("sub", states2, asleep, B), ("all", states, allawake, A)]
+    if case["seed"] % 4 == 0:
+      seq.append(("sub", states2, asleep, B))
+    for k, (nm, sts, asl, ref) in enumerate(seq):
+      Hk = _forward(ms, m_s, sts, asleep=asl, d=Hd.d)
+      for w in range(n):
+        if (Hk.overflow[w] | ref.overflow[w]) & (_ITER | _CAP):
+          continue
+        if not np.array_equal(Hk.tree_awake[w], ref.tree_awake[w]):
+          rec.cls("H:awake-set-differs")  # waking rules are C29's business
+          continue
+        rec.ev()
+        rec.cls(f"H:{k}:{nm}")
+        if nm == "sub" and (ref.tree_awake[w] == 0).any() and (ref.tree_awake[w] == 1).any() and int(ref.nefc[w]) > 0:
+          rec.nt(extra=["H", k, w])
+        _compare_full(rec, f"H{k}:{nm}", Hk, ref, w, np.ones(nv, dtype=bool), sig=f"reuse:{nm}", step=k)
 
   # ---------------- (C) capacity sweep around the number of awake dofs
   # exact fit and one below the largest need always; one more drawn from {between the worlds, below all, random}
